@@ -269,6 +269,8 @@ M("c11-uid-scan-removed", ["C11"],
   (CI, '            for i in self.variants:\n                var = self.variants[i]\n                if var.uid == name:\n                    return var\n            # ... or for a descendant', '            # ... or for a descendant'))
 M("c11-dashed-prefix-descent-removed", ["C11"],
   (CI, '                if "-" in var.uid and name.startswith(var.uid + "-"):', '                if False:'))
+M("c19-legacy-children-expanded-again", ["C19"],
+  (TI, '        if self.type == "variant" and not addon:', '        if self.type == "variant":'))
 M("c04-timestamp-through-float-again", ["C04"],
   (TI, '    try:\n        return int(value)\n    except ValueError:\n        return int(float(value))', '    return int(float(value))'))
 M("c04-platform-suffix-always-stripped", ["C04"],
